@@ -7,6 +7,7 @@ import (
 	"os"
 	"path/filepath"
 	"runtime"
+	"runtime/pprof"
 	"testing"
 	"testing/synctest"
 	"time"
@@ -156,9 +157,13 @@ func TestVerifC14(t *testing.T) {
 	})
 }
 
+var c14prof *os.File
+
 func c14Probe(t *testing.T, rep *kit.Report) {
+	c14prof, _ = os.Create("/tmp/c14probe/cpu.prof")
 	scratch := kit.Scratch()
-	for it := 0; it < 3; it++ {
+	reportLoadFrequency = 20 * time.Minute
+	for it := 0; it < 12; it++ {
 		r0 := c14Real()
 		data, err := c14NewData(2 * c14G)
 		if err != nil {
@@ -169,6 +174,9 @@ func c14Probe(t *testing.T, rep *kit.Report) {
 		mc := &c14Meta{data: data}
 		handle := VerifC14NewService(mc, eng, 30*time.Minute)
 		fmt.Println("setup", c14Real()-r0, "now", time.Now().UTC())
+		r9 := c14Real()
+		time.Sleep(3 * c14G)
+		fmt.Println("sleep-empty 3G", c14Real()-r9)
 		now := time.Now()
 		for k := 0; k < 2; k++ {
 			ts := now.Add(time.Duration(k) * c14G)
@@ -205,10 +213,19 @@ func c14Probe(t *testing.T, rep *kit.Report) {
 		handle()
 		fmt.Println("handle#1", c14Real()-r2, "now", time.Now().UTC(), "shards", len(eng.DBPartitions[c14DB][0].shards))
 		r2 = c14Real()
+		time.Sleep(1)
+		fmt.Println("sleep 1ns", c14Real()-r2)
+		r2 = c14Real()
 		time.Sleep(3*c14G + 1)
 		fmt.Println("sleep 3G+1", c14Real()-r2, "now", time.Now().UTC())
 		r2 = c14Real()
+		if it%2 == 1 {
+			_ = pprof.StartCPUProfile(c14prof)
+		}
 		handle()
+		if it%2 == 1 {
+			pprof.StopCPUProfile()
+		}
 		fmt.Println("handle#2", c14Real()-r2, "now", time.Now().UTC(), "shards", len(eng.DBPartitions[c14DB][0].shards))
 		rpi, _ := data.RetentionPolicy(c14DB, c14RP)
 		fmt.Printf("groups %+v\n", rpi.ShardGroups)
@@ -216,7 +233,7 @@ func c14Probe(t *testing.T, rep *kit.Report) {
 		if err := eng.Close(); err != nil {
 			t.Fatal(err)
 		}
-		fmt.Println("close", c14Real()-r2)
+		fmt.Println("close", c14Real()-r2, "goroutines", runtime.NumGoroutine())
 	}
 }
 
